@@ -1,23 +1,586 @@
 import DudModel.Spec
+import DudModel.Lemmas.Tree
+import DudModel.Lemmas.Codec
 /-!
-# C01 — commit then checkout reproduces the tracked tree (property theorems)
+# C01 — committing a fresh tree and checking it out again is the identity
+
+`commit_fresh_roundtrip`: for a plain, sorted tree with safe names, `commitNode` with a fresh child
+artifact (no recorded checksum) succeeds, records `treeDigest`, keeps the store consistent and
+growing, leaves the logical content of the workspace unchanged, and from every later
+store `checkoutNode` into an empty place rebuilds the tree.
 -/
 namespace Dud
+
 variable {κ : Type}
 
-/-- File case, both strategies: committing a regular file leaves its logical content in place and
-stores exactly its bytes under the recorded checksum. -/
-theorem commitFile_regular (ctx : Ctx κ) (strat : Strat) (c : κ) (sum : Digest) (s : Store κ) :
-    ∃ n' s', commitFile ctx strat false (some (.file c)) sum s = .ok (n', ctx.H c, s') ∧
-      s'.get (ctx.H c) = some (.blob c) ∧ deref ctx s' n' = .file c := by
-  cases strat
-  · refine ⟨.link (.obj (ctx.H c)), (ctx.H c, .blob c) :: s, ?_, ?_, ?_⟩
-    · simp [commitFile, quick, Store.put]
-    · simp [Store.get, alookup]
-    · simp [deref, Store.get, alookup, Obj.bytes]
-  · refine ⟨.file c, (ctx.H c, .blob c) :: s, ?_, ?_, ?_⟩
-    · simp [commitFile, quick, Store.put]
-    · simp [Store.get, alookup]
+/-- commit accepts and the decoder leaves alone every entry name of the listing (at any depth) -/
+def NamesOKList (ctx : Ctx κ) (es : List (Name × Node κ)) : Prop :=
+  ∀ nm, nm ∈ allNamesList es → ctx.nameOK nm = true ∧
+    ∀ sch sum isDir, ctx.reload sch ⟨nm, sum, isDir⟩ = ⟨nm, sum, isDir⟩
+
+/-- Post-condition of `commitNode` on a fresh child artifact (the conclusion of C01). -/
+def NodePost (ctx : Ctx κ) (t : Node κ) : Prop :=
+  ∀ (nm : Bytes) (s : Store κ) (strat : Strat), Consistent ctx s →
+    ∃ t' c' s', commitNode ctx strat t ⟨nm, "", t.isDir⟩ s = .ok (t', c', s') ∧
+      c'.name = nm ∧ c'.isDir = t.isDir ∧ c'.sum = treeDigest ctx nm t ∧
+      Consistent ctx s' ∧ Store.le ctx s s' ∧ deref ctx s' t' = t ∧
+      ∀ s'', Store.le ctx s' s'' → ∀ (strat2 : Strat) (k : Nat),
+        ∃ r, checkoutNode ctx strat2 s'' (depth t + k) none c' = .ok r ∧ deref ctx s'' r = t
+
+/-- Post-condition of `commitEntries` with an empty old manifest. -/
+def EntriesPost (ctx : Ctx κ) (es : List (Name × Node κ)) : Prop :=
+  ∀ (s : Store κ) (strat : Strat), Consistent ctx s →
+    ∃ es' s', commitEntries ctx strat false es [] s = .ok (es', childrenOf ctx es, s') ∧
+      Consistent ctx s' ∧ Store.le ctx s s' ∧ derefList ctx s' es' = es ∧
+      ∀ s'', Store.le ctx s' s'' → ∀ (strat2 : Strat) (fuel : Nat),
+        depthList es ≤ fuel → ∀ acc : List (Name × Node κ), (∀ p ∈ acc, ∀ e ∈ es, p.1 ≠ e.1) →
+          ∃ res, checkoutChildren (checkoutNode ctx strat2 s'' fuel) acc (childrenOf ctx es)
+              = .ok (acc ++ res) ∧ derefList ctx s'' res = es
+
+theorem file_post {ctx : Ctx κ} (g : Good ctx) (x : κ) : NodePost ctx (.file x) := by
+  intro nm s strat hc
+  have hq : (quick s "" (some (Node.file x))).cm = false := by simp [quick]
+  have hput : Consistent ctx (s.put (ctx.H x) (.blob x)) := hc.put (.blob x)
+  have hle : Store.le ctx s (s.put (ctx.H x) (.blob x)) := Store.le_put g hc (.blob x)
+  have hco : ∀ s'', Store.le ctx (s.put (ctx.H x) (.blob x)) s'' →
+      ∀ (strat2 : Strat) (k : Nat), ∃ r,
+        checkoutNode ctx strat2 s'' (depth (Node.file x) + k) none ⟨nm, ctx.H x, false⟩ = .ok r ∧
+          deref ctx s'' r = .file x := by
+    intro s'' hle'' strat2 k
+    obtain ⟨o, ho, hb⟩ := hle'' (ctx.H x) (.blob x) (Store.get_put_self _ _ _)
+    have hfuel : depth (Node.file x) + k = k + 1 := by simp [depth]; omega
+    rw [hfuel]
+    simp only [checkoutNode, Bool.false_eq_true, if_false]
+    exact checkoutFile_fresh g ho hb strat2
+  cases strat with
+  | link =>
+    refine ⟨.link (.obj (ctx.H x)), ⟨nm, ctx.H x, false⟩, s.put (ctx.H x) (.blob x),
+      ?_, rfl, rfl, ?_, hput, hle, ?_, hco⟩
+    · simp [commitNode, commitFile, hq, Node.isDir]
+    · simp [treeDigest]
+    · simp [deref, Store.get_put_self, Obj.bytes]
+  | copy =>
+    refine ⟨.file x, ⟨nm, ctx.H x, false⟩, s.put (ctx.H x) (.blob x),
+      ?_, rfl, rfl, ?_, hput, hle, ?_, hco⟩
+    · simp [commitNode, commitFile, hq, Node.isDir]
+    · simp [treeDigest]
     · simp [deref]
+
+theorem nil_post (ctx : Ctx κ) : EntriesPost ctx [] := by
+  intro s strat hc
+  refine ⟨[], s, by simp [commitEntries, childrenOf], hc, Store.le_refl _ _, by simp [derefList], ?_⟩
+  intro s'' _ strat2 fuel _ acc _
+  exact ⟨[], by simp [childrenOf, checkoutChildren], by simp [derefList]⟩
+
+theorem cons_post {ctx : Ctx κ} {nm : Name} {n : Node κ} {r : List (Name × Node κ)}
+    (hpn : n.plain = true) (hnm : ctx.nameOK nm = true)
+    (hs : sortedList ((nm, n) :: r) = true)
+    (hn : NodePost ctx n) (hr : EntriesPost ctx r) : EntriesPost ctx ((nm, n) :: r) := by
+  intro s strat hc
+  obtain ⟨n', c', s1, hcn, hname, hisDir, hsum, hc1, hle1, hd1, hco1⟩ := hn nm s strat hc
+  obtain ⟨r', s2, hcr, hc2, hle2, hd2, hco2⟩ := hr s1 strat hc1
+  have hc'eq : c' = ⟨nm, treeDigest ctx nm n, n.isDir⟩ := by
+    cases c'; simp_all
+  refine ⟨(nm, n') :: r', s2, ?_, hc2, Store.le_trans hle1 hle2, ?_, ?_⟩
+  · simp [commitEntries, findChild, hnm, hcn, hcr, childrenOf, hc'eq]
+  · have : deref ctx s2 n' = deref ctx s1 n' := deref_le ctx hle2 n' (by rw [hd1]; exact hpn)
+    simp [derefList, this, hd1, hd2]
+  · intro s'' hle'' strat2 fuel hfuel acc hacc
+    have hdn : depth n ≤ fuel := by
+      simp only [depthList] at hfuel; omega
+    have hdr : depthList r ≤ fuel := by
+      simp only [depthList] at hfuel; omega
+    obtain ⟨r0, hr0, hdr0⟩ := hco1 s'' (Store.le_trans hle2 hle'') strat2 (fuel - depth n)
+    have hfe : depth n + (fuel - depth n) = fuel := by omega
+    rw [hfe, hc'eq] at hr0
+    have hfresh : ∀ p ∈ acc, p.1 ≠ nm := fun p hp => hacc p hp (nm, n) (by simp)
+    have hacc' : ∀ p ∈ acc ++ [(nm, r0)], ∀ e ∈ r, p.1 ≠ e.1 := by
+      intro p hp e he
+      rcases List.mem_append.1 hp with hp | hp
+      · exact hacc p hp e (by simp [he])
+      · simp only [List.mem_singleton] at hp
+        subst hp
+        exact sortedList_head_ne hs e he
+    obtain ⟨res, hres, hdres⟩ := hco2 s'' hle'' strat2 fuel hdr _ hacc'
+    refine ⟨(nm, r0) :: res, ?_, by simp [derefList, hdr0, hdres]⟩
+    simp only [childrenOf]
+    rw [checkoutChildren_cons_fresh _ acc _ _ r0 hfresh hr0, hres]
+    simp
+
+theorem dir_post {ctx : Ctx κ} (g : Good ctx) {es : List (Name × Node κ)}
+    (hp : plainList es = true) (hs : sortedList es = true) (hn : NamesOKList ctx es)
+    (he : EntriesPost ctx es) : NodePost ctx (.dir es) := by
+  intro nm s strat hc
+  obtain ⟨es', s2, hce, hc2, hle2, hd2, hco2⟩ := he s strat hc
+  have hsort := sortChildren_childrenOf ctx es hs
+  let m : Obj κ := .man .new nm (childrenOf ctx es)
+  have hput : Consistent ctx (s2.put (m.digest ctx) m) := hc2.put m
+  have hlep : Store.le ctx s2 (s2.put (m.digest ctx) m) := Store.le_put g hc2 m
+  refine ⟨.dir es', ⟨nm, m.digest ctx, true⟩, s2.put (m.digest ctx) m, ?_, rfl, rfl, ?_, hput,
+    Store.le_trans hle2 hlep, ?_, ?_⟩
+  · simp [commitNode, oldManifest, hasSum_empty, hce, hsort, Node.isDir, m]
+  · simp [treeDigest, hsort, m]
+  · have : derefList ctx (s2.put (m.digest ctx) m) es' = derefList ctx s2 es' :=
+      derefList_le ctx hlep es' (by rw [hd2]; exact hp)
+    simp [deref, this, hd2]
+  · intro s'' hle'' strat2 k
+    obtain ⟨o, ho, hb⟩ := hle'' (m.digest ctx) m (Store.get_put_self _ _ _)
+    have hread : readManifest ctx s'' (m.digest ctx) = .ok (childrenOf ctx es) := by
+      rw [readManifest_of_bytes g ho (sch := .new) (p := nm) (cs := childrenOf ctx es) hb]
+      rw [map_reload_childrenOf ctx .new es
+        (fun e he sum isDir => (hn e.1 (mem_allNamesList_of_mem he)).2 .new sum isDir)]
+    have hfuel : depth (Node.dir es) + k = (depthList es + k) + 1 := by
+      simp only [depth]; omega
+    obtain ⟨res, hres, hdres⟩ := hco2 s'' (Store.le_trans hlep hle'') strat2
+      (depthList es + k) (by omega) [] (by simp)
+    refine ⟨.dir res, ?_, by simp [deref, hdres]⟩
+    rw [hfuel]
+    have hh : hasSum (m.digest ctx) = true := hasSum_H g _
+    simp [checkoutNode, hh, Store.has_of_get ho, hread, hres]
+
+theorem namesOK_node {ctx : Ctx κ} {nm : Name} {n : Node κ} {r : List (Name × Node κ)}
+    (h : NamesOKList ctx ((nm, n) :: r)) : NamesOK ctx n :=
+  fun x hx => h x (mem_allNamesList_of_node hx)
+
+theorem namesOK_tail {ctx : Ctx κ} {nm : Name} {n : Node κ} {r : List (Name × Node κ)}
+    (h : NamesOKList ctx ((nm, n) :: r)) : NamesOKList ctx r :=
+  fun x hx => h x (mem_allNamesList_of_tail hx)
+
+mutual
+theorem commitNode_post {ctx : Ctx κ} (g : Good ctx) : ∀ (t : Node κ),
+    t.plain = true → t.sorted = true → NamesOK ctx t → NodePost ctx t
+  | .file x, _, _, _ => file_post g x
+  | .dir es, hp, hs, hn =>
+    have hp' : plainList es = true := by simpa [Node.plain] using hp
+    have hs' : sortedList es = true := by simpa [Node.sorted] using hs
+    have hn' : NamesOKList ctx es := fun x hx => hn x (by simpa [allNames] using hx)
+    dir_post g hp' hs' hn' (commitEntries_post g es hp' hs' hn')
+  | .link _, hp, _, _ => by simp [Node.plain] at hp
+  | .other, hp, _, _ => by simp [Node.plain] at hp
+theorem commitEntries_post {ctx : Ctx κ} (g : Good ctx) : ∀ (es : List (Name × Node κ)),
+    plainList es = true → sortedList es = true → NamesOKList ctx es → EntriesPost ctx es
+  | [], _, _, _ => nil_post ctx
+  | (_, n) :: r, hp, hs, hn =>
+    cons_post (plainList_cons hp).1 (hn _ mem_allNamesList_head).1 hs
+      (commitNode_post g n (plainList_cons hp).1 (sortedList_cons hs).1 (namesOK_node hn))
+      (commitEntries_post g r (plainList_cons hp).2 (sortedList_cons hs).2 (namesOK_tail hn))
+end
+
+/-- **C01.** Commit of a fresh plain tree, then checkout anywhere later, is the identity. -/
+theorem commit_fresh_roundtrip (ctx : Ctx κ) (g : Good ctx) (t : Node κ) (nm : Bytes)
+    (hp : t.plain = true) (hs : t.sorted = true) (hn : NamesOK ctx t)
+    (s : Store κ) (hc : Consistent ctx s) (strat : Strat) :
+    ∃ t' c' s', commitNode ctx strat t ⟨nm, "", t.isDir⟩ s = .ok (t', c', s') ∧
+      c'.name = nm ∧ c'.isDir = t.isDir ∧ c'.sum = treeDigest ctx nm t ∧
+      Consistent ctx s' ∧ Store.le ctx s s' ∧ deref ctx s' t' = t ∧
+      ∀ s'', Store.le ctx s' s'' → ∀ (strat2 : Strat) (k : Nat),
+        ∃ r, checkoutNode ctx strat2 s'' (depth t + k) none c' = .ok r ∧ deref ctx s'' r = t :=
+  commitNode_post g t hp hs hn nm s strat hc
+
+/-- Commit leaves the logical content of the workspace unchanged. -/
+theorem commit_preserves_logical (ctx : Ctx κ) (g : Good ctx) (t : Node κ) (nm : Bytes)
+    (hp : t.plain = true) (hs : t.sorted = true) (hn : NamesOK ctx t)
+    (s : Store κ) (hc : Consistent ctx s) (strat : Strat) :
+    ∃ t' c' s', commitNode ctx strat t ⟨nm, "", t.isDir⟩ s = .ok (t', c', s') ∧
+      deref ctx s' t' = t := by
+  obtain ⟨t', c', s', h, _, _, _, _, _, hd, _⟩ := commit_fresh_roundtrip ctx g t nm hp hs hn s hc strat
+  exact ⟨t', c', s', h, hd⟩
+
+/-- The recorded checksum is `treeDigest ctx nm t`: a function of the name and the tree only,
+whatever the store and the checkout strategy. -/
+theorem commit_digest_is_treeDigest (ctx : Ctx κ) (g : Good ctx) (t : Node κ) (nm : Bytes)
+    (hp : t.plain = true) (hs : t.sorted = true) (hn : NamesOK ctx t)
+    (s : Store κ) (hc : Consistent ctx s) (strat : Strat)
+    {t' : Node κ} {c' : Child} {s' : Store κ}
+    (h : commitNode ctx strat t ⟨nm, "", t.isDir⟩ s = .ok (t', c', s')) :
+    c'.sum = treeDigest ctx nm t := by
+  obtain ⟨t₁, c₁, s₁, h₁, _, _, hsum, _⟩ := commit_fresh_roundtrip ctx g t nm hp hs hn s hc strat
+  rw [h₁] at h
+  cases h
+  exact hsum
+
+/-- Two fresh commits of the same tree under the same name record the same checksum. -/
+theorem commit_digest_independent (ctx : Ctx κ) (g : Good ctx) (t : Node κ) (nm : Bytes)
+    (hp : t.plain = true) (hs : t.sorted = true) (hn : NamesOK ctx t)
+    (s₁ s₂ : Store κ) (hc₁ : Consistent ctx s₁) (hc₂ : Consistent ctx s₂) (strat₁ strat₂ : Strat)
+    {t₁ t₂ : Node κ} {c₁ c₂ : Child} {s₁' s₂' : Store κ}
+    (h₁ : commitNode ctx strat₁ t ⟨nm, "", t.isDir⟩ s₁ = .ok (t₁, c₁, s₁'))
+    (h₂ : commitNode ctx strat₂ t ⟨nm, "", t.isDir⟩ s₂ = .ok (t₂, c₂, s₂')) :
+    c₁.sum = c₂.sum := by
+  rw [commit_digest_is_treeDigest ctx g t nm hp hs hn s₁ hc₁ strat₁ h₁,
+    commit_digest_is_treeDigest ctx g t nm hp hs hn s₂ hc₂ strat₂ h₂]
+
+
+/-! ## Top-level artifacts: `commitArt` / `checkoutArt` -/
+
+/-- the listing a non-recursive directory artifact tracks: sub-directories are left out -/
+def dropSubdirs (es : List (Name × Node κ)) : List (Name × Node κ) :=
+  es.filter (fun e => !e.2.isDir)
+
+/-- reading off the directory branch of `commitNode` -/
+theorem commitNode_dir_inv {ctx : Ctx κ} {strat : Strat} {es : List (Name × Node κ)} {nm : Bytes}
+    {s : Store κ} {t' : Node κ} {c' : Child} {s' : Store κ}
+    (h : commitNode ctx strat (.dir es) ⟨nm, "", true⟩ s = .ok (t', c', s')) :
+    ∃ es' cs s2, commitEntries ctx strat false es [] s = .ok (es', cs, s2) ∧ t' = .dir es' ∧
+      c' = ⟨nm, (Obj.man .new nm (sortChildren cs) : Obj κ).digest ctx, true⟩ ∧
+      s' = s2.put ((Obj.man .new nm (sortChildren cs) : Obj κ).digest ctx)
+        (.man .new nm (sortChildren cs)) := by
+  cases hce : commitEntries ctx strat false es [] s with
+  | error e => simp [commitNode, oldManifest, hasSum_empty, hce] at h
+  | ok v =>
+    obtain ⟨es', cs, s2⟩ := v
+    simp only [commitNode, oldManifest, hasSum_empty, hce, Bool.false_and, if_true,
+      Bool.false_eq_true, if_false, Except.ok.injEq, Prod.mk.injEq] at h
+    obtain ⟨rfl, rfl, rfl⟩ := h
+    exact ⟨es', cs, s2, rfl, rfl, rfl, rfl⟩
+
+/-- the directory branch of `commitArt` for a fresh artifact, given the result of the entries -/
+theorem commitArt_dir_of_entries {ctx : Ctx κ} {strat : Strat} {a : Art}
+    {es es' : List (Name × Node κ)} {cs : List Child} {s s2 : Store κ}
+    (hd : a.isDir = true) (hsum : a.sum = "")
+    (hce : commitEntries ctx strat a.noRec es [] s = .ok (es', cs, s2)) :
+    commitArt ctx strat a (some (.dir es)) s =
+      .ok (.dir es', (Obj.man .new a.path (sortChildren cs) : Obj κ).digest ctx,
+        s2.put ((Obj.man .new a.path (sortChildren cs) : Obj κ).digest ctx)
+          (.man .new a.path (sortChildren cs))) := by
+  simp [commitArt, hd, hsum, oldManifest, hasSum_empty, hce]
+
+theorem checkoutArt_noskip {ctx : Ctx κ} {strat : Strat} {fuel : Nat} {a : Art} {d : Digest}
+    {s : Store κ} {r : Node κ} (hskip : a.skip = false)
+    (h : checkoutNode ctx strat s fuel none ⟨a.path, d, a.isDir⟩ = .ok r) :
+    checkoutArt ctx strat fuel { a with sum := d } none s = .ok (some r) := by
+  simp [checkoutArt, hskip, Art.child, h]
+
+/-- **C01, directory artifact (c1).** `LocalCache.Commit` of a fresh recursive directory artifact
+records `treeDigest`, and `LocalCache.Checkout` of the committed artifact into an absent
+workspace, from any later store, rebuilds the tree. -/
+theorem commitArt_dir_roundtrip (ctx : Ctx κ) (g : Good ctx) (a : Art)
+    (es : List (Name × Node κ))
+    (hd : a.isDir = true) (hsum : a.sum = "") (hskip : a.skip = false) (hnr : a.noRec = false)
+    (hp : (Node.dir es).plain = true) (hs : (Node.dir es).sorted = true)
+    (hn : NamesOK ctx (.dir es)) (s : Store κ) (hc : Consistent ctx s) (strat : Strat) :
+    ∃ t' d s', commitArt ctx strat a (some (.dir es)) s = .ok (t', d, s') ∧
+      d = treeDigest ctx a.path (.dir es) ∧
+      Consistent ctx s' ∧ Store.le ctx s s' ∧ deref ctx s' t' = .dir es ∧
+      ∀ s'', Store.le ctx s' s'' → ∀ (strat2 : Strat) (fuel : Nat), depth (Node.dir es) ≤ fuel →
+        ∃ r, checkoutArt ctx strat2 fuel { a with sum := d } none s'' = .ok (some r) ∧
+          deref ctx s'' r = .dir es := by
+  obtain ⟨t', c', s', hcn, _, _, hdig, hc', hle, hder, hco⟩ :=
+    commit_fresh_roundtrip ctx g (.dir es) a.path hp hs hn s hc strat
+  obtain ⟨es', cs, s2, hce, rfl, rfl, rfl⟩ := commitNode_dir_inv hcn
+  refine ⟨_, _, _, commitArt_dir_of_entries hd hsum (by rw [hnr]; exact hce), hdig, hc', hle,
+    hder, ?_⟩
+  intro s'' hle'' strat2 fuel hfuel
+  obtain ⟨r, hr, hdr⟩ := hco s'' hle'' strat2 (fuel - depth (Node.dir es))
+  have hfe : depth (Node.dir es) + (fuel - depth (Node.dir es)) = fuel := by omega
+  rw [hfe] at hr
+  exact ⟨r, checkoutArt_noskip hskip (by rw [hd]; exact hr), hdr⟩
+
+/-- With `DisableRecursion`, `commitEntries` does on the whole listing exactly what it does on the
+listing without sub-directories (same children, same store); the sub-directories stay in the
+workspace as they are. -/
+theorem commitEntries_noRec (ctx : Ctx κ) (strat : Strat) : ∀ (es : List (Name × Node κ))
+    (old : List Child) (s : Store κ) (fs' : List (Name × Node κ)) (cs : List Child) (s' : Store κ),
+    plainList es = true →
+    commitEntries ctx strat false (dropSubdirs es) old s = .ok (fs', cs, s') →
+    ∃ es', commitEntries ctx strat true es old s = .ok (es', cs, s') ∧
+      ∀ s3, derefList ctx s3 fs' = dropSubdirs es → derefList ctx s3 es' = es
+  | [], old, s, fs', cs, s', _, h => by
+    simp only [dropSubdirs, List.filter_nil, commitEntries, Except.ok.injEq, Prod.mk.injEq] at h
+    obtain ⟨rfl, rfl, rfl⟩ := h
+    exact ⟨[], by simp [commitEntries], fun s3 _ => by simp [derefList]⟩
+  | (nm, n) :: r, old, s, fs', cs, s', hp, h => by
+    by_cases hdir : n.isDir = true
+    · have hdrop : dropSubdirs ((nm, n) :: r) = dropSubdirs r := by
+        simp [dropSubdirs, hdir]
+      rw [hdrop] at h
+      obtain ⟨r', hr', hder⟩ := commitEntries_noRec ctx strat r old s fs' cs s' (plainList_cons hp).2 h
+      refine ⟨(nm, n) :: r', by simp [commitEntries, hdir, hr'], ?_⟩
+      intro s3 h3
+      rw [hdrop] at h3
+      simp [derefList, deref_plain ctx s3 n (plainList_cons hp).1, hder s3 h3]
+    · have hdir' : n.isDir = false := by simpa using hdir
+      have hdrop : dropSubdirs ((nm, n) :: r) = (nm, n) :: dropSubdirs r := by
+        simp [dropSubdirs, hdir']
+      rw [hdrop] at h
+      simp only [commitEntries, Bool.false_and, Bool.false_eq_true, if_false] at h
+      split at h
+      · simp at h
+      · split at h
+        · simp at h
+        · next n' c' s1 hcn =>
+          split at h
+          · simp at h
+          · next r0 cs0 s2 hcr =>
+            simp only [Except.ok.injEq, Prod.mk.injEq] at h
+            obtain ⟨rfl, rfl, rfl⟩ := h
+            obtain ⟨r', hr', hder⟩ :=
+              commitEntries_noRec ctx strat r old s1 r0 cs0 s2 (plainList_cons hp).2 hcr
+            refine ⟨(nm, n') :: r', ?_, ?_⟩
+            · simp_all [commitEntries]
+            · intro s3 h3
+              rw [hdrop] at h3
+              simp only [derefList, List.cons.injEq, Prod.mk.injEq, true_and] at h3
+              simp [derefList, h3.1, hder s3 h3.2]
+
+/-- **C01, non-recursive directory artifact (c2), weakest hypotheses**: only the tracked part of
+the listing has to be sorted and to have safe names. -/
+theorem commitArt_noRec_roundtrip' (ctx : Ctx κ) (g : Good ctx) (a : Art)
+    (es : List (Name × Node κ))
+    (hd : a.isDir = true) (hsum : a.sum = "") (hskip : a.skip = false) (hnr : a.noRec = true)
+    (hp : (Node.dir es).plain = true) (hs : (Node.dir (dropSubdirs es)).sorted = true)
+    (hn : NamesOK ctx (.dir (dropSubdirs es))) (s : Store κ) (hc : Consistent ctx s)
+    (strat : Strat) :
+    ∃ t' d s', commitArt ctx strat a (some (.dir es)) s = .ok (t', d, s') ∧
+      d = treeDigest ctx a.path (.dir (dropSubdirs es)) ∧
+      Consistent ctx s' ∧ Store.le ctx s s' ∧ deref ctx s' t' = .dir es ∧
+      ∀ s'', Store.le ctx s' s'' → ∀ (strat2 : Strat) (fuel : Nat),
+        depth (Node.dir (dropSubdirs es)) ≤ fuel →
+        ∃ r, checkoutArt ctx strat2 fuel { a with sum := d } none s'' = .ok (some r) ∧
+          deref ctx s'' r = .dir (dropSubdirs es) := by
+  have hpl : plainList es = true := by simpa [Node.plain] using hp
+  have hp' : (Node.dir (dropSubdirs es)).plain = true := by
+    simp only [Node.plain]
+    exact plainList_filter _ es hpl
+  obtain ⟨t', c', s', hcn, _, _, hdig, hc', hle, hder, hco⟩ :=
+    commit_fresh_roundtrip ctx g (.dir (dropSubdirs es)) a.path hp' hs hn s hc strat
+  obtain ⟨fs', cs, s2, hce, rfl, rfl, rfl⟩ := commitNode_dir_inv hcn
+  obtain ⟨es', hce', hder'⟩ := commitEntries_noRec ctx strat es [] s fs' cs s2 hpl hce
+  refine ⟨_, _, _, commitArt_dir_of_entries hd hsum (by rw [hnr]; exact hce'), hdig, hc', hle,
+    ?_, ?_⟩
+  · simp only [deref, Node.dir.injEq] at hder ⊢
+    exact hder' _ hder
+  · intro s'' hle'' strat2 fuel hfuel
+    obtain ⟨r, hr, hdr⟩ := hco s'' hle'' strat2 (fuel - depth (Node.dir (dropSubdirs es)))
+    have hfe : depth (Node.dir (dropSubdirs es)) + (fuel - depth (Node.dir (dropSubdirs es)))
+        = fuel := by omega
+    rw [hfe] at hr
+    exact ⟨r, checkoutArt_noskip hskip (by rw [hd]; exact hr), hdr⟩
+
+/-- **C01, non-recursive directory artifact (c2)**, hypotheses on the whole tree. -/
+theorem commitArt_noRec_roundtrip (ctx : Ctx κ) (g : Good ctx) (a : Art)
+    (es : List (Name × Node κ))
+    (hd : a.isDir = true) (hsum : a.sum = "") (hskip : a.skip = false) (hnr : a.noRec = true)
+    (hp : (Node.dir es).plain = true) (hs : (Node.dir es).sorted = true)
+    (hn : NamesOK ctx (.dir es)) (s : Store κ) (hc : Consistent ctx s) (strat : Strat) :
+    ∃ t' d s', commitArt ctx strat a (some (.dir es)) s = .ok (t', d, s') ∧
+      d = treeDigest ctx a.path (.dir (dropSubdirs es)) ∧
+      Consistent ctx s' ∧ Store.le ctx s s' ∧ deref ctx s' t' = .dir es ∧
+      ∀ s'', Store.le ctx s' s'' → ∀ (strat2 : Strat) (fuel : Nat),
+        depth (Node.dir (dropSubdirs es)) ≤ fuel →
+        ∃ r, checkoutArt ctx strat2 fuel { a with sum := d } none s'' = .ok (some r) ∧
+          deref ctx s'' r = .dir (dropSubdirs es) := by
+  refine commitArt_noRec_roundtrip' ctx g a es hd hsum hskip hnr hp ?_ ?_ s hc strat
+  · have : sortedList es = true := by simpa [Node.sorted] using hs
+    simp only [Node.sorted]
+    exact sortedList_filter _ es this
+  · intro x hx
+    refine hn x ?_
+    simp only [allNames] at hx ⊢
+    exact mem_allNamesList_filter _ es x hx
+
+/-- **C01, file artifact (c3).** Commit of a regular file (whatever checksum the artifact
+carried), then checkout into an absent workspace from any later store, both strategies. -/
+theorem commitArt_file_roundtrip (ctx : Ctx κ) (g : Good ctx) (a : Art) (c : κ)
+    (hd : a.isDir = false) (hskip : a.skip = false)
+    (s : Store κ) (hc : Consistent ctx s) (strat : Strat) :
+    ∃ t' s', commitArt ctx strat a (some (.file c)) s = .ok (t', ctx.H c, s') ∧
+      Consistent ctx s' ∧ Store.le ctx s s' ∧ deref ctx s' t' = .file c ∧
+      ∀ s'', Store.le ctx s' s'' → ∀ (strat2 : Strat) (fuel : Nat), 1 ≤ fuel →
+        ∃ r, checkoutArt ctx strat2 fuel { a with sum := ctx.H c } none s'' = .ok (some r) ∧
+          deref ctx s'' r = .file c := by
+  have hq : (quick s a.sum (some (Node.file c))).cm = false := by simp [quick]
+  have hput : Consistent ctx (s.put (ctx.H c) (.blob c)) := hc.put (.blob c)
+  have hle : Store.le ctx s (s.put (ctx.H c) (.blob c)) := Store.le_put g hc (.blob c)
+  have hco : ∀ s'', Store.le ctx (s.put (ctx.H c) (.blob c)) s'' →
+      ∀ (strat2 : Strat) (fuel : Nat), 1 ≤ fuel →
+        ∃ r, checkoutArt ctx strat2 fuel { a with sum := ctx.H c } none s'' = .ok (some r) ∧
+          deref ctx s'' r = .file c := by
+    intro s'' hle'' strat2 fuel hfuel
+    obtain ⟨o, ho, hb⟩ := hle'' (ctx.H c) (.blob c) (Store.get_put_self _ _ _)
+    obtain ⟨r, hr, hdr⟩ := checkoutFile_fresh g ho hb strat2
+    refine ⟨r, checkoutArt_noskip hskip ?_, hdr⟩
+    obtain ⟨k, rfl⟩ : ∃ k, fuel = k + 1 := ⟨fuel - 1, by omega⟩
+    simp only [checkoutNode, hd, Bool.false_eq_true, if_false]
+    exact hr
+  cases strat with
+  | link =>
+    exact ⟨.link (.obj (ctx.H c)), s.put (ctx.H c) (.blob c),
+      by simp [commitArt, hd, hskip, commitFile, hq], hput, hle,
+      by simp [deref, Store.get_put_self, Obj.bytes], hco⟩
+  | copy =>
+    exact ⟨.file c, s.put (ctx.H c) (.blob c),
+      by simp [commitArt, hd, hskip, commitFile, hq], hput, hle, by simp [deref], hco⟩
+
+/-- **skip-cache file artifact (c3).** Commit only records the checksum: node and store are
+unchanged; checkout does not touch the workspace. -/
+theorem commitArt_file_skip (ctx : Ctx κ) (a : Art) (c : κ)
+    (hd : a.isDir = false) (hskip : a.skip = true) (s : Store κ) (strat : Strat) :
+    commitArt ctx strat a (some (.file c)) s = .ok (.file c, ctx.H c, s) := by
+  have hq : (quick s a.sum (some (Node.file c))).cm = false := by simp [quick]
+  simp [commitArt, hd, hskip, commitFile, hq]
+
+theorem checkoutArt_skip (ctx : Ctx κ) (a : Art) (hskip : a.skip = true) (strat : Strat)
+    (fuel : Nat) (cur : Option (Node κ)) (s : Store κ) :
+    checkoutArt ctx strat fuel a cur s = .ok cur := by
+  simp [checkoutArt, hskip]
+
+/-! ## Invalid entry names make commit fail -/
+
+/-- If a top-level entry has a name commit does not accept, `commitEntries` (recursive mode) fails:
+it never records a manifest with a different name. -/
+theorem commit_error_on_invalid_name (ctx : Ctx κ) (strat : Strat) :
+    ∀ (es : List (Name × Node κ)), (∃ e ∈ es, ctx.nameOK e.1 = false) →
+      ∀ (old : List Child) (s : Store κ), ∃ err, commitEntries ctx strat false es old s = .error err
+  | [], h, _, _ => by simp at h
+  | (nm, n) :: r, h, old, s => by
+    by_cases hnm : ctx.nameOK nm = true
+    · have hr : ∃ e ∈ r, ctx.nameOK e.1 = false := by
+        obtain ⟨e, he, hbad⟩ := h
+        rcases List.mem_cons.1 he with rfl | he'
+        · simp [hnm] at hbad
+        · exact ⟨e, he', hbad⟩
+      simp only [commitEntries, Bool.false_and, Bool.false_eq_true, if_false, hnm, Bool.not_true]
+      cases hcn : commitNode ctx strat n ((findChild old nm).getD ⟨nm, "", n.isDir⟩) s with
+      | error e => exact ⟨e, rfl⟩
+      | ok v =>
+        obtain ⟨n', c', s1⟩ := v
+        obtain ⟨err, herr⟩ := commit_error_on_invalid_name ctx strat r hr old s1
+        exact ⟨err, by simp [herr]⟩
+    · exact ⟨.invalid, by simp [commitEntries, hnm]⟩
+
+/-- the same for a whole directory artifact: `LocalCache.Commit` fails -/
+theorem commitArt_error_on_invalid_name (ctx : Ctx κ) (strat : Strat) (a : Art)
+    (es : List (Name × Node κ)) (hd : a.isDir = true) (hnr : a.noRec = false)
+    (h : ∃ e ∈ es, ctx.nameOK e.1 = false) (s : Store κ) :
+    ∃ err, commitArt ctx strat a (some (.dir es)) s = .error err := by
+  simp only [commitArt, hd, if_true, hnr]
+  cases hold : oldManifest ctx s a.sum with
+  | error e => exact ⟨e, rfl⟩
+  | ok old =>
+    obtain ⟨err, herr⟩ := commit_error_on_invalid_name ctx strat es h old s
+    exact ⟨err, by simp [herr]⟩
+
+/-! ## Non-vacuity: a concrete context with `Good`, a concrete tree, and the round trip -/
+
+namespace Example
+open Dud.Example
+
+/-- two levels of directories, an empty directory, the same file content twice -/
+def tree : Node K :=
+  .dir [([97], .file (.raw "alpha")),
+        ([98], .dir [([99], .file (.raw "gamma")), ([100], .dir [])]),
+        ([101], .file (.raw "alpha"))]
+
+theorem tree_plain : tree.plain = true := by simp [tree, Node.plain, plainList]
+theorem tree_sorted : tree.sorted = true := by
+  simp [tree, Node.sorted, sortedList, headName]; decide
+theorem tree_names : NamesOK ctx tree := fun _ _ => ⟨rfl, fun _ _ _ => rfl⟩
+theorem tree_depth : depth tree = 3 := by simp [tree, depth, depthList]
+theorem empty_consistent : Consistent ctx [] := by
+  intro d o h; simp [Store.get, alookup] at h
+
+/-- All hypotheses of C01 are satisfiable together (`good : Good ctx` is proved in
+`Lemmas/Codec.lean`), and the conclusion specialises to the concrete round trip. -/
+example (strat strat2 : Strat) :
+    ∃ t' c' s', commitNode ctx strat tree ⟨[116], "", true⟩ [] = .ok (t', c', s') ∧
+      c'.sum = treeDigest ctx [116] tree ∧ deref ctx s' t' = tree ∧
+      ∃ r, checkoutNode ctx strat2 s' 3 none c' = .ok r ∧ deref ctx s' r = tree := by
+  obtain ⟨t', c', s', h, _, _, hsum, _, _, hd, hco⟩ :=
+    commit_fresh_roundtrip ctx good tree [116] tree_plain tree_sorted tree_names [] empty_consistent
+      strat
+  obtain ⟨r, hr, hdr⟩ := hco s' (Store.le_refl _ _) strat2 0
+  rw [tree_depth] at hr
+  exact ⟨t', c', s', h, hsum, hd, r, hr, hdr⟩
+
+mutual
+def nodeBEq : Node K → Node K → Bool
+  | .file a, .file b => a == b
+  | .dir a, .dir b => listBEq a b
+  | .link a, .link b => a == b
+  | .other, .other => true
+  | _, _ => false
+def listBEq : List (Name × Node K) → List (Name × Node K) → Bool
+  | [], [] => true
+  | (n, a) :: r, (m, b) :: r' => n == m && nodeBEq a b && listBEq r r'
+  | _, _ => false
+end
+
+/-- executable evidence: commit with one strategy, check out with the other -/
+def roundtrip (strat strat2 : Strat) : String :=
+  match commitNode ctx strat tree ⟨[116], "", true⟩ [] with
+  | .error e => s!"commit error {e}"
+  | .ok (t', c', s') =>
+    match checkoutNode ctx strat2 s' 3 none c' with
+    | .error e => s!"checkout error {e}"
+    | .ok r =>
+      s!"checkout∘commit = id: {nodeBEq (deref ctx s' r) tree}; " ++
+      s!"logical workspace unchanged: {nodeBEq (deref ctx s' t') tree}; " ++
+      s!"sum = treeDigest: {c'.sum == treeDigest ctx [116] tree}; objects: {s'.length}"
+
+#eval roundtrip .link .copy
+#eval roundtrip .copy .link
+#eval roundtrip .link .link
+#eval roundtrip .copy .copy
+
+/-- executable evidence for the artifact level: non-recursive directory artifact -/
+def artNoRec (strat strat2 : Strat) : String :=
+  let a : Art := { path := [116], isDir := true, noRec := true }
+  match tree with
+  | .dir es =>
+    match commitArt ctx strat a (some tree) [] with
+    | .error e => s!"commit error {e}"
+    | .ok (t', d, s') =>
+      match checkoutArt ctx strat2 2 { a with sum := d } none s' with
+      | .error e => s!"checkout error {e}"
+      | .ok none => "checkout gave nothing"
+      | .ok (some r) =>
+        s!"checkout = dropSubdirs: {nodeBEq (deref ctx s' r) (.dir (dropSubdirs es))}; " ++
+        s!"workspace unchanged: {nodeBEq (deref ctx s' t') tree}; " ++
+        s!"sum = treeDigest of dropSubdirs: {d == treeDigest ctx [116] (.dir (dropSubdirs es))}"
+  | _ => "not a directory"
+
+#eval artNoRec .link .copy
+#eval artNoRec .copy .link
+
+/-- a context rejecting the name `b`: commit of the example tree must fail -/
+def ctxBad : Ctx K := { ctx with nameOK := fun nm => nm != [98] }
+
+#eval match commitArt ctxBad .link { path := [116], isDir := true } (some tree) [] with
+  | .error e => s!"error {e}"
+  | .ok _ => "ok (unexpected)"
+
+end Example
+
+#print axioms file_post
+#print axioms nil_post
+#print axioms cons_post
+#print axioms dir_post
+#print axioms namesOK_node
+#print axioms namesOK_tail
+#print axioms commitNode_post
+#print axioms commitEntries_post
+#print axioms commit_fresh_roundtrip
+#print axioms commit_preserves_logical
+#print axioms commit_digest_is_treeDigest
+#print axioms commit_digest_independent
+#print axioms commitNode_dir_inv
+#print axioms commitArt_dir_of_entries
+#print axioms checkoutArt_noskip
+#print axioms commitArt_dir_roundtrip
+#print axioms commitEntries_noRec
+#print axioms commitArt_noRec_roundtrip'
+#print axioms commitArt_noRec_roundtrip
+#print axioms commitArt_file_roundtrip
+#print axioms commitArt_file_skip
+#print axioms checkoutArt_skip
+#print axioms commit_error_on_invalid_name
+#print axioms commitArt_error_on_invalid_name
+#print axioms Dud.Example.good
+#print axioms Example.tree_plain
+#print axioms Example.tree_sorted
+#print axioms Example.tree_names
+#print axioms Example.tree_depth
+#print axioms Example.empty_consistent
 
 end Dud
